@@ -162,12 +162,18 @@ class Ctx:
 
 
 def load_known_findings(pid):
-    p = os.path.join(VERIF, "known_findings.json")
-    if not os.path.exists(p):
-        return []
-    with open(p) as f:
-        data = json.load(f)
-    return [e for e in data.get("findings", []) if e.get("property") == pid and e.get("status") == "open"]
+    files = [os.path.join(VERIF, "known_findings.json")]
+    dd = os.path.join(VERIF, "known_findings.d")
+    if os.path.isdir(dd):
+        files += [os.path.join(dd, n) for n in sorted(os.listdir(dd)) if n.endswith(".json")]
+    res = []
+    for p in files:
+        if not os.path.exists(p):
+            continue
+        with open(p) as f:
+            data = json.load(f)
+        res += [e for e in data.get("findings", []) if e.get("property") == pid and e.get("status") == "open"]
+    return res
 
 
 def match_known(kf, signature):
@@ -208,6 +214,8 @@ def _run_tlc(ctx, tag, module, cfg, workers, timeout, extra, env=None, java_opts
     cmd = _tlc_cmd(module, cfg, meta, workers, extra)
     e = env_with(env)
     jo = "-Xss256m"
+    if os.environ.get("VERIF_TLC_XMX"):
+        jo += " -Xmx" + os.environ["VERIF_TLC_XMX"]
     if java_opts:
         jo += " " + java_opts
     e["JAVA_TOOL_OPTIONS"] = (e.get("JAVA_TOOL_OPTIONS", "") + " " + jo).strip()
@@ -275,7 +283,7 @@ def tlc_mc(ctx, module, cfg, workers=None, timeout=600, extra=(), env=None, tag=
            expect_violation=False, coverage=False, java_opts=None):
     """Exhaustive run. Returns result dict; raises Infra on tool failure.
     A violated invariant on the *spec* is returned (res['violated']) - never a verdict by itself."""
-    workers = workers or NCPU
+    workers = workers or int(os.environ.get("VERIF_TLC_WORKERS", NCPU))
     tag = tag or (module + "_" + os.path.splitext(os.path.basename(cfg))[0])
     ex = list(extra)
     if coverage:
@@ -458,6 +466,48 @@ def go_build(cmd_name, tags="verif", race=False):
         raise Infra("harness build failed (%s):\n%s" % (cmd_name, p.stdout[-4000:]))
     log("built %s in %.1fs" % (cmd_name, time.time() - t0))
     return out
+
+
+def go_test_build(pkg_name, tags="verif", race=False):
+    """Compile harness/t/<pkg_name> into a test binary (drivers that need a *testing.T, e.g. the
+    chain drivers built on testutil/common.Tester). Returns the binary path."""
+    os.makedirs(BUILD, exist_ok=True)
+    if REPO == "/repo":
+        modfile = os.path.join(HARNESS, "go.mod")
+        suffix = ""
+    else:
+        h = hashlib.sha256(REPO.encode()).hexdigest()[:10]
+        d = os.path.join(WORK, "_mod_" + h)
+        os.makedirs(d, exist_ok=True)
+        modfile = os.path.join(d, "go.mod")
+        suffix = "_" + h
+    _gen_gomod(REPO, modfile)
+    out = os.path.join(BUILD, pkg_name + suffix + ("_race" if race else "") + ".test")
+    cmd = ["go", "test", "-c", "-vet=off", "-tags", tags, "-o", out]
+    if modfile != os.path.join(HARNESS, "go.mod"):
+        cmd += ["-modfile", modfile]
+    if race:
+        cmd += ["-race"]
+    cmd += ["./t/" + pkg_name]
+    t0 = time.time()
+    p = subprocess.run(cmd, cwd=HARNESS, env=env_with(), stdout=subprocess.PIPE, stderr=subprocess.STDOUT, text=True)
+    if p.returncode != 0:
+        raise Infra("harness test build failed (%s):\n%s" % (pkg_name, p.stdout[-4000:]))
+    log("built %s.test in %.1fs" % (pkg_name, time.time() - t0))
+    return out
+
+
+def run_test_harness(binary, env, test="TestDrive", timeout=3600, check=True):
+    """Run a compiled test-binary driver. Inputs/outputs are passed through env (VERIF_IN, VERIF_OUT, ...)."""
+    cmd = [binary, "-test.run", "^%s$" % test, "-test.count", "1", "-test.timeout", "0"]
+    try:
+        p = subprocess.run(cmd, env=env_with(env), stdout=subprocess.PIPE, stderr=subprocess.STDOUT, text=True,
+                           timeout=timeout, cwd=os.path.dirname(binary))
+    except subprocess.TimeoutExpired:
+        raise Infra("driver %s timed out after %ss" % (os.path.basename(binary), timeout))
+    if check and (p.returncode != 0 or "\nPASS" not in "\n" + p.stdout):
+        raise Infra("driver %s failed rc=%d: %s" % (os.path.basename(binary), p.returncode, p.stdout[-3000:]))
+    return p
 
 
 def run_harness(binary, args, timeout=1800, env=None, stdin=None, check=True):
